@@ -100,6 +100,14 @@ def run(facts, tier):
     c14.c14_8(facts, res, "R06-7")
     import borrowck
     borrowck.rule(facts, res, "R06-6", reach, floor=3)
+    # the unwrap of `number.parse::<f64>()` in eval_primary_expr is discharged by "the token matched production [30] Number":
+    # that entry condition is the language accepted by expr::number (a lexer that lets Unicode digits through breaks it)
+    import e2
+    import xpath10
+    rows, _ = e2.conformance(facts, xpath10)
+    e2.conformance_findings(rows, "R06-8", res, names={"Number", "Digits"})
+    if res.rules["R06-8"]["instances"] < 1:
+        raise BrokenCheck("R06-8: production Number not compared")
     return res
 
 
